@@ -199,8 +199,7 @@ func (Serializer) Unmarshal(buf []byte, m pilosa.Message) error {
 		if err != nil {
 			return errors.Wrap(err, "unmarshaling QueryResponse")
 		}
-		decodeQueryResponse(msg, mt)
-		return nil
+		return errors.Wrap(decodeQueryResponse(msg, mt), "decoding QueryResponse")
 	case *pilosa.ImportRequest:
 		msg := &internal.ImportRequest{}
 		err := proto.Unmarshal(buf, msg)
@@ -486,6 +485,9 @@ func encodeResizeSource(m *pilosa.ResizeSource) *internal.ResizeSource {
 }
 
 func encodeSchema(m *pilosa.Schema) *internal.Schema {
+	if m == nil {
+		return nil
+	}
 	return &internal.Schema{
 		Indexes: encodeIndexInfos(m.Indexes),
 	}
@@ -501,8 +503,9 @@ func encodeIndexInfos(idxs []*pilosa.IndexInfo) []*internal.Index {
 
 func encodeIndexInfo(idx *pilosa.IndexInfo) *internal.Index {
 	return &internal.Index{
-		Name:   idx.Name,
-		Fields: encodeFieldInfos(idx.Fields),
+		Name:    idx.Name,
+		Options: encodeIndexMeta(&idx.Options),
+		Fields:  encodeFieldInfos(idx.Fields),
 	}
 }
 
@@ -532,15 +535,16 @@ func encodeFieldOptions(o *pilosa.FieldOptions) *internal.FieldOptions {
 		return nil
 	}
 	return &internal.FieldOptions{
-		Type:        o.Type,
-		CacheType:   o.CacheType,
-		CacheSize:   o.CacheSize,
-		Min:         o.Min,
-		Max:         o.Max,
-		Base:        o.Base,
-		BitDepth:    uint64(o.BitDepth),
-		TimeQuantum: string(o.TimeQuantum),
-		Keys:        o.Keys,
+		Type:           o.Type,
+		CacheType:      o.CacheType,
+		CacheSize:      o.CacheSize,
+		Min:            o.Min,
+		Max:            o.Max,
+		Base:           o.Base,
+		BitDepth:       uint64(o.BitDepth),
+		TimeQuantum:    string(o.TimeQuantum),
+		Keys:           o.Keys,
+		NoStandardView: o.NoStandardView,
 	}
 }
 
@@ -555,6 +559,9 @@ func encodeNodes(a []*pilosa.Node) []*internal.Node {
 
 // encodeNode converts a Node into its internal representation.
 func encodeNode(n *pilosa.Node) *internal.Node {
+	if n == nil {
+		return nil
+	}
 	return &internal.Node{
 		ID:            n.ID,
 		URI:           encodeURI(n.URI),
@@ -572,6 +579,9 @@ func encodeURI(u pilosa.URI) *internal.URI {
 }
 
 func encodeClusterStatus(m *pilosa.ClusterStatus) *internal.ClusterStatus {
+	if m == nil {
+		return nil
+	}
 	return &internal.ClusterStatus{
 		State:     m.State,
 		ClusterID: m.ClusterID,
@@ -595,6 +605,9 @@ func encodeCreateIndexMessage(m *pilosa.CreateIndexMessage) *internal.CreateInde
 }
 
 func encodeIndexMeta(m *pilosa.IndexOptions) *internal.IndexMeta {
+	if m == nil {
+		return nil
+	}
 	return &internal.IndexMeta{
 		Keys:           m.Keys,
 		TrackExistence: m.TrackExistence,
@@ -681,6 +694,9 @@ func encodeNodeEventMessage(m *pilosa.NodeEvent) *internal.NodeEventMessage {
 }
 
 func encodeNodeStatus(m *pilosa.NodeStatus) *internal.NodeStatus {
+	if m == nil {
+		return nil
+	}
 	return &internal.NodeStatus{
 		Node:    encodeNode(m.Node),
 		Indexes: encodeIndexStatuses(m.Indexes),
@@ -784,6 +800,7 @@ func decodeIndexes(idxs []*internal.Index, m []*pilosa.IndexInfo) {
 
 func decodeIndex(idx *internal.Index, m *pilosa.IndexInfo) {
 	m.Name = idx.Name
+	decodeIndexMeta(idx.Options, &m.Options)
 	m.Fields = make([]*pilosa.FieldInfo, len(idx.Fields))
 	decodeFields(idx.Fields, m.Fields)
 }
@@ -819,6 +836,7 @@ func decodeFieldOptions(options *internal.FieldOptions, m *pilosa.FieldOptions) 
 	m.BitDepth = uint(options.BitDepth)
 	m.TimeQuantum = pilosa.TimeQuantum(options.TimeQuantum)
 	m.Keys = options.Keys
+	m.NoStandardView = options.NoStandardView
 }
 
 func decodeNodes(a []*internal.Node, m []*pilosa.Node) {
@@ -950,6 +968,7 @@ func decodeNodeStatus(pb *internal.NodeStatus, m *pilosa.NodeStatus) {
 		// the field is absent from the message: leave m empty
 		return
 	}
+	decodeNode(pb.Node, m.Node)
 	m.Indexes = decodeIndexStatuses(pb.Indexes)
 	decodeSchema(pb.Schema, m.Schema)
 }
@@ -1039,7 +1058,7 @@ func decodeBlockDataResponse(pb *internal.BlockDataResponse, m *pilosa.BlockData
 	m.ColumnIDs = pb.ColumnIDs
 }
 
-func decodeQueryResponse(pb *internal.QueryResponse, m *pilosa.QueryResponse) {
+func decodeQueryResponse(pb *internal.QueryResponse, m *pilosa.QueryResponse) error {
 	m.ColumnAttrSets = make([]*pilosa.ColumnAttrSet, len(pb.ColumnAttrSets))
 	decodeColumnAttrSets(pb.ColumnAttrSets, m.ColumnAttrSets)
 	if pb.Err == "" {
@@ -1048,7 +1067,7 @@ func decodeQueryResponse(pb *internal.QueryResponse, m *pilosa.QueryResponse) {
 		m.Err = errors.New(pb.Err)
 	}
 	m.Results = make([]interface{}, len(pb.Results))
-	decodeQueryResults(pb.Results, m.Results)
+	return decodeQueryResults(pb.Results, m.Results)
 }
 
 func decodeColumnAttrSets(pb []*internal.ColumnAttrSet, m []*pilosa.ColumnAttrSet) {
@@ -1064,10 +1083,15 @@ func decodeColumnAttrSet(pb *internal.ColumnAttrSet, m *pilosa.ColumnAttrSet) {
 	m.Attrs = decodeAttrs(pb.Attrs)
 }
 
-func decodeQueryResults(pb []*internal.QueryResult, m []interface{}) {
+func decodeQueryResults(pb []*internal.QueryResult, m []interface{}) error {
 	for i := range pb {
-		m[i] = decodeQueryResult(pb[i])
+		result, err := decodeQueryResult(pb[i])
+		if err != nil {
+			return err
+		}
+		m[i] = result
 	}
+	return nil
 }
 
 func decodeTranslateKeysRequest(pb *internal.TranslateKeysRequest, m *pilosa.TranslateKeysRequest) {
@@ -1094,30 +1118,33 @@ const (
 	queryResultTypePair
 )
 
-func decodeQueryResult(pb *internal.QueryResult) interface{} {
+func decodeQueryResult(pb *internal.QueryResult) (interface{}, error) {
 	switch pb.Type {
 	case queryResultTypeRow:
-		return decodeRow(pb.Row)
+		return decodeRow(pb.Row), nil
 	case queryResultTypePairs:
-		return decodePairs(pb.Pairs)
+		return decodePairs(pb.Pairs), nil
 	case queryResultTypeValCount:
-		return decodeValCount(pb.ValCount)
+		return decodeValCount(pb.ValCount), nil
 	case queryResultTypeUint64:
-		return pb.N
+		return pb.N, nil
 	case queryResultTypeBool:
-		return pb.Changed
+		return pb.Changed, nil
 	case queryResultTypeNil:
-		return nil
+		return nil, nil
 	case queryResultTypeRowIDs:
-		return pilosa.RowIDs(pb.RowIDs)
+		return pilosa.RowIDs(pb.RowIDs), nil
 	case queryResultTypeRowIdentifiers:
-		return decodeRowIdentifiers(pb.RowIdentifiers)
+		return decodeRowIdentifiers(pb.RowIdentifiers), nil
 	case queryResultTypeGroupCounts:
-		return decodeGroupCounts(pb.GroupCounts)
+		return decodeGroupCounts(pb.GroupCounts), nil
 	case queryResultTypePair:
-		return decodePair(pb.Pairs[0])
+		if len(pb.Pairs) != 1 {
+			return nil, fmt.Errorf("query result of type pair holds %d pairs", len(pb.Pairs))
+		}
+		return decodePair(pb.Pairs[0]), nil
 	}
-	panic(fmt.Sprintf("unknown type: %d", pb.Type))
+	return nil, fmt.Errorf("unknown query result type: %d", pb.Type)
 }
 
 // DecodeRow converts r from its internal representation.
@@ -1167,6 +1194,10 @@ func decodeAttr(attr *internal.Attr) (key string, value interface{}) {
 }
 
 func decodeRowIdentifiers(a *internal.RowIdentifiers) *pilosa.RowIdentifiers {
+	if a == nil {
+		// the field is absent from the message: no rows
+		return &pilosa.RowIdentifiers{}
+	}
 	return &pilosa.RowIdentifiers{
 		Rows: a.Rows,
 		Keys: a.Keys,
@@ -1215,6 +1246,10 @@ func decodePair(pb *internal.Pair) pilosa.Pair {
 }
 
 func decodeValCount(pb *internal.ValCount) pilosa.ValCount {
+	if pb == nil {
+		// the field is absent from the message: the zero value
+		return pilosa.ValCount{}
+	}
 	return pilosa.ValCount{
 		Val:   pb.Val,
 		Count: pb.Count,
